@@ -1,6 +1,7 @@
 // Public-API operations (database / crate / track), observation and raw dumps.
 #include <sqlite3.h>
 
+#include <algorithm>
 #include <filesystem>
 #include <fstream>
 #include <functional>
@@ -263,6 +264,14 @@ static json guarded(const std::function<json()>& f)
     }
 }
 
+// Listings whose order the API does not define are reported sorted, so that comparing two
+// observations never depends on an unspecified order.
+static json sorted_ids(json a)
+{
+    if (a.is_array()) std::sort(a.begin(), a.end());
+    return a;
+}
+
 static json crate_ids(const std::vector<dj::crate>& v)
 {
     json a = json::array();
@@ -293,7 +302,7 @@ static json observe_track(dj::track& t, bool with_snapshot)
     g["hot_cue_at"] = hc;
     g["loop_at"] = lp;
     o["get"] = g;
-    o["containing_crates"] = guarded([&] { return crate_ids(t.containing_crates()); });
+    o["containing_crates"] = guarded([&] { return sorted_ids(crate_ids(t.containing_crates())); });
     return o;
 }
 
@@ -306,9 +315,10 @@ static json observe_crate(State& st, dj::crate& c)
         auto p = c.parent();
         return p ? json(p->id()) : json(nullptr);
     });
-    o["children"] = guarded([&] { return crate_ids(c.children()); });
-    o["descendants"] = guarded([&] { return crate_ids(c.descendants()); });
-    o["tracks"] = guarded([&] { return track_ids(c.tracks()); });
+    // sibling and entry order is meaningful on 2.x only
+    o["children"] = guarded([&] { auto v = crate_ids(c.children()); return st.is_v2 ? v : sorted_ids(v); });
+    o["descendants"] = guarded([&] { return sorted_ids(crate_ids(c.descendants())); });
+    o["tracks"] = guarded([&] { auto v = track_ids(c.tracks()); return st.is_v2 ? v : sorted_ids(v); });
     json sub;
     for (auto& n : st.names)
         sub[hex_of(n)] = guarded([&] {
@@ -335,12 +345,12 @@ static json observe_all(State& st, const json& a)
     std::vector<dj::track> live_tracks;
     d["crates"] = guarded([&] {
         live_crates = db.crates();
-        return crate_ids(live_crates);
+        return sorted_ids(crate_ids(live_crates));
     });
-    d["root_crates"] = guarded([&] { return crate_ids(db.root_crates()); });
+    d["root_crates"] = guarded([&] { auto v = crate_ids(db.root_crates()); return st.is_v2 ? v : sorted_ids(v); });
     d["tracks"] = guarded([&] {
         live_tracks = db.tracks();
-        return track_ids(live_tracks);
+        return sorted_ids(track_ids(live_tracks));
     });
     for (auto& c : live_crates) cids.insert(c.id());
     for (auto& t : live_tracks) tids.insert(t.id());
@@ -404,14 +414,14 @@ static json observe_all(State& st, const json& a)
     json cbn, rcbn, tbp;
     for (auto& n : st.names)
     {
-        cbn[hex_of(n)] = guarded([&] { return crate_ids(db.crates_by_name(n)); });
+        cbn[hex_of(n)] = guarded([&] { return sorted_ids(crate_ids(db.crates_by_name(n))); });
         rcbn[hex_of(n)] = guarded([&] {
             auto c = db.root_crate_by_name(n);
             return c ? json(c->id()) : json(nullptr);
         });
     }
     for (auto& p : st.paths)
-        tbp[hex_of(p)] = guarded([&] { return track_ids(db.tracks_by_relative_path(p)); });
+        tbp[hex_of(p)] = guarded([&] { return sorted_ids(track_ids(db.tracks_by_relative_path(p))); });
     d["crates_by_name"] = cbn;
     d["root_crate_by_name"] = rcbn;
     d["tracks_by_relative_path"] = tbp;
@@ -713,6 +723,108 @@ bool dispatch_api(State& st, const std::string& op, const json& a, json& ret)
                 std::string data((std::istreambuf_iterator<char>(f)), std::istreambuf_iterator<char>());
                 out[fs::relative(e.path(), dir).string()] = fnv_hex(data) + ":" + std::to_string(data.size());
             }
+        ret = out;
+        return true;
+    }
+    if (op == "fault_sweep")
+    {
+        // Runs the inner (mutating) op with statement k = 1, 2, ... made to fail, each time from the
+        // same state (legal because a correct failure changes nothing), comparing the full public
+        // observation with the one taken before; stops at the first run in which the fault is not
+        // reached (that run is the fault-free one and advances the history).
+        const json& inner = a.at("inner");
+        std::string iname = inner.at("op").get<std::string>();
+        int code = a.value("code", 13);
+        long long max_k = a.value("max_k", 400LL);
+        json oa = a.value("observe", json::object());
+        json obs0 = observe_all(st, oa);
+        // the sets of names / paths / ids to probe must not differ between the observations compared
+        auto names0 = st.names;
+        auto paths0 = st.paths;
+        auto ids0 = st.ids;
+        json runs = json::array();
+        json out;
+        out["statements"] = 0;
+        out["stopped"] = "max_k";
+        for (long long k = 1; k <= max_k; ++k)
+        {
+            shim_begin_op();
+            shim_arm_fault(k, code, false);
+            json r;
+            r["k"] = k;
+            bool threw = false;
+            try
+            {
+                json iret;
+                bool ok = dispatch_api(st, iname, inner, iret) || dispatch_table(st, iname, inner, iret);
+                if (!ok) throw harness_error("unknown inner op " + iname);
+                r["ret"] = iret;
+            }
+            catch (const harness_error&)
+            {
+                shim_disarm();
+                throw;
+            }
+            catch (const std::exception& e)
+            {
+                threw = true;
+                auto x = exception_to_json(e);
+                r["exc"] = x["type"];
+                r["is"] = x["is"];
+            }
+            catch (...)
+            {
+                threw = true;
+                r["exc"] = "non-std";
+                r["nonstd"] = true;
+            }
+            bool fired = g_shim.fault_fired;
+            std::string sql = g_shim.fault_sql;
+            bool budget = g_shim.step_budget_exceeded;
+            shim_disarm();
+            r["threw"] = threw;
+            if (budget) r["step_budget_exceeded"] = true;
+            if (!fired)
+            {
+                // fault-free run
+                out["final"] = r;
+                out["statements"] = k - 1;
+                out["stopped"] = "complete";
+                break;
+            }
+            r["sql"] = sql;
+            int txn = shim_any_in_txn();
+            r["txn"] = txn;
+            shim_begin_op();
+            st.names = names0;
+            st.paths = paths0;
+            st.ids = ids0;
+            json obs = observe_all(st, oa);
+            bool same = obs == obs0;
+            r["same"] = same;
+            bool bad = !threw || !same || txn != 0;
+            if (bad)
+            {
+                if (!same)
+                {
+                    r["before"] = obs0;
+                    r["after"] = obs;
+                }
+                runs.push_back(r);
+                out["violations"] = out.value("violations", 0) + 1;
+                if (!a.value("keep_going", false) || out["violations"].get<int>() >= 5)
+                {
+                    out["stopped"] = "violation";
+                    out["statements"] = k;
+                    break;
+                }
+                // keep going from the state as it now is (the violation is recorded)
+                obs0 = obs;
+                continue;
+            }
+            runs.push_back(r);
+        }
+        out["runs"] = runs;
         ret = out;
         return true;
     }
